@@ -536,6 +536,16 @@ theorem mapIndexes_none [Vals V] (c : IC V) (x : FinFun) (h : x.target ≠ c.len
 
 /-! ### flatmap -/
 
+theorem flatmap_sizes_sum (c d : IC FinFun) (hc : c.valid = true) (hd : d.valid = true) :
+    ((splitSegs c.sources.table
+      (c.values.table.map (fun j => d.sources.table.getD j 0))).map List.sum).sum =
+      (c.values.table.flatMap (fun j => d.segs.getD j [])).length := by
+  have hc2 := ((valid_iff c).1 hc).2
+  have hd2 := ((valid_iff d).1 hd).2
+  simp only [len_finfun] at hc2 hd2
+  rw [← sum_flatten', splitSegs_flatten _ _ (by simp [hc2]), List.length_flatMap]
+  simp only [segs, splitSegs_getD_length _ _ (Nat.le_of_eq hd2)]
+
 theorem flatmap_eq (c d : IC FinFun) (hc : c.valid = true) (hw : c.values.WF) (hd : d.valid = true)
     (h : c.values.target = d.len) :
     flatmap c d = .ok ⟨⟨(splitSegs c.sources.table
@@ -545,11 +555,7 @@ theorem flatmap_eq (c d : IC FinFun) (hc : c.valid = true) (hw : c.values.WF) (h
   have hc2 := ((valid_iff c).1 hc).2
   have hd2 := ((valid_iff d).1 hd).2
   simp only [len_finfun] at hc2 hd2
-  have hsum : ((splitSegs c.sources.table
-      (c.values.table.map (fun j => d.sources.table.getD j 0))).map List.sum).sum =
-      (c.values.table.flatMap (fun j => d.segs.getD j [])).length := by
-    rw [← sum_flatten', splitSegs_flatten _ _ (by simp [hc2]), List.length_flatMap]
-    simp only [segs, splitSegs_getD_length _ _ (Nat.le_of_eq hd2)]
+  have hsum := flatmap_sizes_sum c d hc hd
   unfold flatmap
   rw [if_pos h, compose_sources c.values d.sources hw h]
   simp only [Res.unwrap_ok, Res.ok_bind]
@@ -715,6 +721,28 @@ theorem sliceIter_eq (c : IC (List α)) (h : c.sources.table.sum ≤ c.values.le
     exact congrArg Res.ok this
   · intro i hi
     exact slice_step c.sources.table c.values h i (List.mem_range.1 hi)
+
+/-! ### element-exact (`some`-wrapped) forms -/
+
+theorem map_getD_some (l : List β) (d : β) (idx : List Nat) (h : ∀ j ∈ idx, j < l.length) :
+    (idx.map (fun j => l.getD j d)).map some = idx.map (fun j => l[j]?) := by
+  rw [List.map_map]
+  apply List.map_congr_left
+  intro j hj
+  simp [List.getD_eq_getElem?_getD, List.getElem?_eq_getElem (h j hj)]
+
+theorem splitSegs_map_some (ks : List Nat) (vs : List α) (f : α → β) (g : α → Option β)
+    (h : ∀ a ∈ vs, some (f a) = g a) :
+    (splitSegs ks (vs.map f)).map (·.map some) = (splitSegs ks vs).map (·.map g) := by
+  rw [← splitSegs_map, ← splitSegs_map, List.map_map]
+  congr 1
+  apply List.map_congr_left
+  intro a ha
+  exact h a ha
+
+theorem mk_valid [HasLen V] (s : FinFun) (v : V) (h1 : s.target = s.table.sum + 1)
+    (h2 : s.table.sum = HasLen.len v) : (⟨s, v⟩ : IC V).valid = true :=
+  (valid_iff _).2 ⟨h1, h2⟩
 
 end IC
 
